@@ -84,6 +84,7 @@ def _check_main(run, P):
     run.do(_transparent, run, P)
     run.do(_atomic, run, P)
     run.do(_confined, run, P)
+    run.do(_driver_state, run, P)
     run.do(_order, run, P)
     run.do(_locals, run, P)
     _alias(run, "C01.step", "C11.phase", lambda: c01._step(run, P))
@@ -238,6 +239,25 @@ def _atomic(run, P):
 
     muts = [n for n in g.nodes if mutates(n)]
     bad = g.always_preceded(muts, calls)
+    # the results are a finished sequence before the first of them is stored
+    res_names = set()
+    for n_ in calls:
+        a_ = n_.ast
+        if isinstance(a_, ast.Assign):
+            res_names |= {t.id for t in a_.targets if isinstance(t, ast.Name)}
+    sized = [n_ for n_ in g.nodes if n_.ast is not None and any(
+        isinstance(x, ast.Call) and isinstance(x.func, ast.Name) and x.func.id in ("len", "tuple", "list")
+        and x.args and isinstance(x.args[0], ast.Name) and x.args[0].id in res_names
+        for fr in own_fragments(n_) for x in walk_fragment(fr))]
+    loop_stores = [n_ for n_ in muts if any(isinstance(lp, ast.For) and any(n_.ast is y for y in ast.walk(lp))
+                                            for lp in ast.walk(f.node))]
+    late = g.always_preceded(loop_stores, sized) if loop_stores else []
+    run.ob("C11.atomic", f, late[0].ast if late else f.node, bool(sized) and not late,
+           construct="the results are counted (len / tuple / list) before the first one is stored",
+           why="stored while they are being produced - a user function that hands back a "
+               "generator and raises after its first value - the first assignee is changed and "
+               "the second is not, although both depend on the failed call; the tuple assignment "
+               "of generated code unpacks everything first")
     run.ob("C11.atomic", f, bad[0].ast if bad else calls[0].ast, not bad,
            construct="every mutation of self.context is dominated by the user call"
                      + (f" (not: {norm(bad[0].ast, 60)})" if bad else ""),
@@ -297,6 +317,47 @@ def _confined(run, P):
                why="the cleanup at the end of a step (and a fresh stepper started from the "
                    "store) knows only self.context: a binding kept anywhere else survives a "
                    "failed step and makes stepping on differ from a fresh stepper")
+
+
+def _driver_state(run, P):
+    """Between steps a stepper is its variable store (resp. its state attributes) and
+    the phase it is in: the drivers change nothing else, and never the store."""
+    import textwrap
+    C = P.cls(INTERP)
+    for name in ("run", "run_single_step"):
+        f = C.methods[name]
+        stores = []
+        attrs = []
+        fin = {id(y) for t in ast.walk(f.node) if isinstance(t, ast.Try) for b in t.finalbody
+               for y in ast.walk(b)}
+        for x in ast.walk(f.node):
+            if isinstance(x, ast.Subscript) and dotted(x.value) == "self.context" \
+                    and isinstance(x.ctx, (ast.Store, ast.Del)) and id(x) not in fin:
+                stores.append(x)
+            if isinstance(x, ast.Call) and isinstance(x.func, ast.Attribute) \
+                    and dotted(x.func.value) == "self.context" and x.func.attr in MUTATORS and id(x) not in fin:
+                stores.append(x)
+            if isinstance(x, ast.Attribute) and isinstance(x.value, ast.Name) and x.value.id == "self" \
+                    and isinstance(x.ctx, ast.Store) and x.attr != "next_phase":
+                attrs.append(x)
+        run.ob("C11.confined", f, (stores + attrs)[0] if stores + attrs else f.node, not stores and not attrs,
+               construct=f"NumpyInterpreter.{name} writes no variable (outside the cleanup) and no "
+                         f"attribute but next_phase"
+                         + (f" (found {norm((stores + attrs)[0], 40)})" if stores + attrs else ""),
+               why="what the driver changes around a step is not undone when a user function "
+                   "raises inside it (a step size clamped to reach t_end stays clamped), and it "
+                   "is state the written program never assigns")
+    from .c01 import template_of
+    for tname in ("_emit_run", "_emit_run_single_step"):
+        fg, node, tree = template_of(P, tname)
+        attrs = [x for x in ast.walk(tree) if isinstance(x, ast.Attribute) and isinstance(x.value, ast.Name)
+                 and x.value.id == "self" and isinstance(x.ctx, ast.Store) and x.attr != "next_phase"]
+        run.ob("C11.confined", fg, node, not attrs,
+               construct=f"generated {tname[6:]}() assigns no attribute but next_phase"
+                         + (f" (found self.{attrs[0].attr})" if attrs else ""),
+               why="a counter or flag kept on the stepper across steps survives a step that ends "
+                   "in a user exception: the resumed stepper then behaves unlike a fresh one "
+                   "started in the same state and phase")
 
 
 def _order(run, P):
